@@ -998,6 +998,9 @@ class Engine:
                 self._taskLaunched = None
                 self._exitReason = None
                 self.run()
+                # VV: Announce that the engine is alive again right away (instead of at the next periodic emission)
+                # so that observers do not miss the alive->dead transition if the engine is killed soon after
+                self.emit_now()
                 restartCode = experiment.model.codes.restartCodes['RestartInitiated']
             except Exception as error:
                 self.log.warning("Unable to restart job - exception while attempting to run new job: %s" % str(error))
